@@ -4,3 +4,4 @@ Redirect "C12/Export_c12_observable" Print Assumptions C12X.c12_observable.
 Redirect "C12/Export_c12_double_close_harmless" Print Assumptions C12X.c12_double_close_harmless.
 Redirect "C12/Export_c12_group_terminates" Print Assumptions C12X.c12_group_terminates.
 Redirect "C12/Export_c12_no_send_on_closed_group_partial" Print Assumptions C12X.c12_no_send_on_closed_group_partial.
+Redirect "C12/Export_c12_group_watcher" Print Assumptions C12X.c12_group_watcher.
